@@ -192,6 +192,10 @@ class History(RuleBasedStateMachine):
                 f.write(LIB_ASM)
             with open(os.path.join(self.dir, sub, 'local.asm'), 'w') as f:
                 f.write('LOCAL_K = %d\n' % (5 if k == 0 else 1234))
+            # a sub-directory of the same name in both source directories, reached through a RELATIVE include_dirs entry
+            os.makedirs(os.path.join(self.dir, sub, 'rel'))
+            with open(os.path.join(self.dir, sub, 'rel', 'relk.asm'), 'w') as f:
+                f.write('REL_K = %d\n' % (11 if k == 0 else 222))
         self.paths = []
         for i, text in enumerate(progs):
             p = os.path.join(self.dir, ('src', 'src2')[i % 2], 'p%d.asm' % i)
@@ -294,6 +298,8 @@ class History(RuleBasedStateMachine):
         key = self.calls[k % len(self.calls)][0]
         if key[0] == 'text':
             return self.assemble_source_text_from_a_working_directory(key[1], key[2], key[3])
+        if key[0] == 'reltext':
+            return self.assemble_source_text_with_relative_include_dirs(key[1], key[2])
         if key[2] in ('reuse', 'foreign'):
             key = (key[0], key[1], 'fresh', key[3])
         self._call(*key)
@@ -327,6 +333,34 @@ class History(RuleBasedStateMachine):
             f.write(self.pool[i])
         self.reusable = [x for x in self.reusable if x[0] != i]
         self.rewrites = getattr(self, 'rewrites', 0) + 1
+
+    @rule(where=st.sampled_from(['src', 'src2']), compress=st.booleans())
+    def assemble_source_text_with_relative_include_dirs(self, where, compress):
+        # include_dirs=['rel'] names src/rel or src2/rel depending on the working directory of the moment
+        text = 'include relk.asm\nli x9, REL_K\naddi x9, x9, REL_K\n'
+        cwd = os.path.normpath(os.path.join(self.dir, where))
+        self.ops.append(['reltext', where, compress])
+        ref = fresh(text, compress, {}, {}, ['rel'], 'reltext', cwd=cwd)
+        lin, cin = {}, {}
+        old = os.getcwd()
+        os.chdir(cwd)
+        try:
+            try:
+                out = self.a.assemble(text, compress=compress, labels=lin, constants=cin, include_dirs=['rel'])
+                got = {'ok': True, 'bytes': bytes(out).hex(), 'labels': lin, 'constants': cin}
+            except self.a.AssemblerError as e:
+                got = {'ok': False, 'type': 'AssemblerError', 'message': e.message, 'line': getattr(e.line, 'number', None)}
+            except Exception as e:
+                got = {'ok': False, 'type': type(e).__name__, 'message': str(e), 'line': None}
+        finally:
+            os.chdir(old)
+        self.calls.append((('reltext', where, compress), got['ok']))
+        self.text_calls = getattr(self, 'text_calls', 0) + 1
+        if got != ref:
+            raise env.CaseFailure('history:%s' % ('result' if got['ok'] and ref['ok'] else 'outcome'),
+                                  'source TEXT with include_dirs=[\'rel\'] assembled with cwd=%s after history %r gives\n  %s\nbut a fresh interpreter started there gives\n  %s' % (
+                                      where, [(k, ok) for k, ok in self.calls][:-1][-8:], json.dumps(got)[:300], json.dumps(ref)[:300]),
+                                  {'kind': 'history', 'pool': self.original, 'ops': self.ops})
 
     @rule(where=st.sampled_from(['src', 'src2', 'defs', '.']), compress=st.booleans(), big=st.booleans())
     def assemble_source_text_from_a_working_directory(self, where, compress, big):
@@ -497,6 +531,25 @@ def cli_hashseed_job(seed):
                          % sorted(set((o[0], o[1].hex() if o[1] else None) for o in outs)), {'kind': 'hashseed', 'source': 'include common.asm'})
             else:
                 res.nt(env.chash(('ambiguous include', k, seed)))
+        # an include name that matches no file exactly while two files differ from it only in case: whatever happens (file names are
+        # case-sensitive: a refusal) must be the same under every hash seed
+        os.makedirs(os.path.join(d, 'cased'), exist_ok=True)
+        for nm, v in (('Board.asm', 5), ('BOARD.ASM', 13), ('bOARD.asm', 21)):
+            with open(os.path.join(d, 'cased', nm), 'w') as f:
+                f.write('addi x10, x0, %d\n' % v)
+        with open(os.path.join(d, 'r.asm'), 'w') as f:
+            f.write('include board.asm\nnop\n')
+        outs = []
+        for hs in ('0', '1', '2', '3', '5', '8', '13', '21', '4242', '99991'):
+            if os.path.exists(os.path.join(d, 'r.bin')):
+                os.remove(os.path.join(d, 'r.bin'))
+            p = subprocess.run(cli + ['-i', 'cased', '-o', 'r.bin', 'r.asm'], cwd=d, env=env.repo_python_env({'PYTHONHASHSEED': hs}),
+                               stdout=subprocess.PIPE, stderr=subprocess.PIPE, timeout=120)
+            res.evaluations += 1
+            outs.append((p.returncode, open(os.path.join(d, 'r.bin'), 'rb').read() if os.path.exists(os.path.join(d, 'r.bin')) else None))
+        if len(set(outs)) != 1:
+            res.fail('hashseed:include_case', 'an include name with several case-variants in a searched directory gives different results under different PYTHONHASHSEED values: %r'
+                     % sorted(set((o[0], o[1].hex() if o[1] else None) for o in outs)), {'kind': 'hashseed', 'source': 'include board.asm'})
     return res
 
 
@@ -611,6 +664,9 @@ def replay(path):
                         continue
                     m.ops = []
                     m._call(i, compress, mode, incdirs, reuse_from=rf)
+                elif op[0] == 'reltext':
+                    m.ops = []
+                    m.assemble_source_text_with_relative_include_dirs(op[1], op[2])
                 elif op[0] == 'text':
                     m.ops = []
                     m.assemble_source_text_from_a_working_directory(op[1], op[2], op[3])
